@@ -12,11 +12,11 @@ EXTENDS LruTimeCache, TLC, Json, IOUtils, SequencesExt
 CONSTANT STRICT
 Rec == ndJsonDeserialize(IOEnv.TRACE)
 
-VARIABLES l, q, cfg, m, viols
-vars == <<l, q, cfg, m, viols>>
+VARIABLES l, q, cfg, m, viols, sr
+vars == <<l, q, cfg, m, viols, sr>>
 
 M0 == [used |-> <<>>, n |-> 0, t |-> 0, keys |-> {}]
-Init == l = 1 /\ q = <<>> /\ cfg = [cap |-> 1, ttl |-> 1] /\ m = M0 /\ viols = <<>>
+Init == l = 1 /\ q = <<>> /\ cfg = [cap |-> 1, ttl |-> 1] /\ m = M0 /\ viols = <<>> /\ sr = [q |-> <<>>, ret |-> None]
 
 StKeys(st) == {st[i][1] : i \in 1..Len(st)}
 Proj(qq) == [i \in 1..Len(qq) |-> <<qq[i].k, qq[i].age>>]
@@ -46,15 +46,15 @@ Next ==
   /\ l <= Len(Rec) /\ l' = l + 1
   /\ LET e == Rec[l] IN
      IF e.op.o = "reset"
-     THEN /\ cfg' = [cap |-> e.op.cap, ttl |-> e.op.ttl] /\ q' = <<>> /\ m' = M0 /\ UNCHANGED viols
+     THEN /\ cfg' = [cap |-> e.op.cap, ttl |-> e.op.ttl] /\ q' = <<>> /\ m' = M0 /\ UNCHANGED <<viols, sr>>
      ELSE /\ UNCHANGED cfg
           /\ m' = MonStep(m, cfg, e)
           /\ viols' = viols \o SetToSeq({<<l, f>> : f \in MonViol(m, cfg, e)})
           /\ IF STRICT
-             THEN LET r == Step(q, cfg, e.op, 0) IN
-                  /\ "panic" \notin DOMAIN e.ret
-                  /\ RetEq(r.ret, e.ret) /\ Proj(r.q) = e.st /\ q' = r.q
-             ELSE q' = q
+             THEN /\ "panic" \notin DOMAIN e.ret
+                  /\ sr' = Step(q, cfg, e.op, 0)
+                  /\ RetEq(sr'.ret, e.ret) /\ Proj(sr'.q) = e.st /\ q' = sr'.q
+             ELSE q' = q /\ sr' = sr
 Spec == Init /\ [][Next]_vars
 
 Report == l <= Len(Rec) \/ PrintT(<<"VIOLS", ToJson(viols)>>)
